@@ -11,11 +11,80 @@ KEYFORMATS_LOOKALIKE = ["Identity", "IDENTITY", "com.apple.StreamingKeyDelivery"
                         "identity2", "com.apple.streamingkeydelivery.v2"]
 
 
+_LITERALS = None
+
+
+def source_literals():
+    """the string literals of the library's own (non-test) source, as found NOW: a change that gives one particular string a
+    special meaning (an alias, a keyword, a sentinel) has to spell that string in the source, so the value pools draw from here"""
+    global _LITERALS
+    if _LITERALS is None:
+        import os, re
+        from . import common as C
+        from . import translate as T
+        lits = set()
+        try:
+            src_root = os.path.join(C.REPO, "src")
+            for root, _, fs in os.walk(src_root):
+                for f in sorted(fs):
+                    if f.endswith(".rs") and f != "verif_hooks.rs":
+                        src = T.strip_comments(T.strip_tests(T.read(os.path.relpath(os.path.join(root, f), src_root))))
+                        for m in re.finditer(r'"((?:[^"\\\n]|\\.){1,60})"', src):
+                            t = m.group(1)
+                            if "\\" in t or "{" in t or "\r" in t:
+                                continue
+                            lits.add(t)
+        except Exception:
+            pass
+        _LITERALS = sorted(lits) or ["identity"]
+    return _LITERALS
+
+
+_NEW = None
+
+
+def new_literals():
+    """literals of the current source that the committed inventory (source_literals.json) does not have: where the code now
+    spells a string it did not spell before. Not an alarm (a reworded message is harmless); it steers the value pools."""
+    global _NEW
+    if _NEW is None:
+        import os, json
+        from . import common as C
+        try:
+            base = set(json.load(open(os.path.join(C.VERIF, "source_literals.json"))))
+            _NEW = [t for t in source_literals() if t not in base][:40]
+        except Exception:
+            _NEW = []
+    return _NEW
+
+
+def literal_like(rng):
+    """a source literal, as it stands or in another letter case / with a blank / with one more character"""
+    new = new_literals()
+    t = rng.choice(new) if new and rng.random() < 0.7 else rng.choice(source_literals())
+    r = rng.random()
+    if r < 0.6:
+        return t
+    if r < 0.7:
+        return t.lower()
+    if r < 0.8:
+        return t.upper()
+    if r < 0.85:
+        return t.title()
+    if r < 0.9:
+        return t + rng.choice(["x", "1", " ", ".", "-"])
+    return rng.choice([" ", "x", "#"]) + t
+
+
 def pick_keyformat(rng, choices=None):
     if choices is None:
         choices = KEYFORMATS
-    if choices is KEYFORMATS and rng.random() < 0.15:
-        return rng.choice(KEYFORMATS_LOOKALIKE)
+    if choices is KEYFORMATS:
+        r = rng.random()
+        if r < 0.15:
+            return rng.choice(KEYFORMATS_LOOKALIKE)
+        if r < (0.45 if new_literals() else 0.2):
+            return literal_like(rng)
     return rng.choice(choices)
 BOUNDARY_INTS = [0, 1, 2, 255, 256, 2**32 - 1, 2**32, 2**53, 2**63 - 1, 2**63, 2**64 - 2, 2**64 - 1]
 DATES = ["2010-02-19T14:54:23.031+08:00", "2014-03-05T11:15:00Z", "1970-01-01T00:00:00.000Z", "not a date"]
@@ -30,7 +99,9 @@ def qs(rng):
         return rng.choice(WORDS) + rng.choice([" ", ",", "=", "-", ""]) + rng.choice(WORDS)
     if r < 0.85:
         return ""
-    if r < 0.87:
+    if r < 0.9 or (r < 0.97 and new_literals()):
+        return literal_like(rng)
+    if r < 0.92:
         # long (a value cut, capped or copied into a fixed buffer shows here), with leading / trailing blanks kept inside the quotes
         return rng.choice(["", " "]) + "".join(rng.choice("abcXYZ019 ,=-_/:.éß日😀") for _ in range(rng.choice([64, 130, 260, 600]))) + rng.choice(["", " "])
     return "".join(rng.choice("abcXYZ019 ,=-_/:.éß日😀") for _ in range(rng.randint(1, 12)))
@@ -76,6 +147,38 @@ def f32_literal(rng, signed=True):
     return v
 
 
+ALL_ATTR_NAMES = ["METHOD", "URI", "IV", "KEYFORMAT", "KEYFORMATVERSIONS", "BYTERANGE", "ID", "CLASS", "START-DATE", "END-DATE", "DURATION", "PLANNED-DURATION",
+                  "END-ON-NEXT", "TYPE", "GROUP-ID", "LANGUAGE", "NAME", "DEFAULT", "AUTOSELECT", "FORCED", "INSTREAM-ID", "CHANNELS", "BANDWIDTH", "CODECS",
+                  "RESOLUTION", "FRAME-RATE", "AUDIO", "VIDEO", "SUBTITLES", "CLOSED-CAPTIONS", "DATA-ID", "VALUE", "TIME-OFFSET", "PRECISE"]
+
+
+def unknown_attr(rng, pairs, client_prefix_ok=True):
+    """an attribute the tag does not know: an unrelated name, or a NEAR MISS of a known one (a prefix / suffix added, another letter
+    case), with an unrelated value or a value that means something for the known one (copied from the list, a keyword)"""
+    known = [k for k, _ in pairs] or ["URI"]
+    r = rng.random()
+    if r < 0.35:
+        name = rng.choice(["FOO", "Y-NOT-CLIENT", "UNKNOWN-ATTR", "Z9", "BANDWIDTHX", "URI2"])
+    else:
+        base = rng.choice(known) if rng.random() < 0.7 else rng.choice(ALL_ATTR_NAMES)
+        forms = [base + "X", base + "-2", "MY-" + base, "Y" + base, base.lower(), base.title(), base + "S", base[:-1] if len(base) > 2 else base + "Q"]
+        if client_prefix_ok:
+            forms += ["X-" + base, "X" + base]
+        name = rng.choice(forms)
+        if name in ALL_ATTR_NAMES:
+            name += "Q"
+        if not client_prefix_ok and name.upper().startswith("X-"):
+            name = "Y" + name          # in a DATERANGE every X-… name is a client attribute, not an unknown one
+    r = rng.random()
+    if r < 0.4:
+        value = rng.choice(["1", '"a,b"', "YES", '"q=r"', "0x1", "NONE", '"METHOD=NONE"'])
+    elif r < 0.7 and pairs:
+        value = rng.choice(pairs)[1]
+    else:
+        value = rng.choice(["NONE", "NO", "YES", "AES-128", "SAMPLE-AES", "AUDIO", "CLOSED-CAPTIONS", "TYPE-0", '"identity"', '""', "0", "-1", "1x1", "0x"])
+    return name, value
+
+
 class Layout:
     """surface-syntax decisions for one rendering"""
     def __init__(self, rng, plain=False):
@@ -94,7 +197,7 @@ class Layout:
         rng = self.rng
         pairs = list(pairs)
         if self.unknown_attrs and rng.random() < 0.5:
-            pairs.insert(rng.randint(0, len(pairs)), (rng.choice(["FOO", "X", "UNKNOWN-ATTR", "Z9"]), rng.choice(["1", '"a,b"', "YES", '"q=r"', "0x1"])))
+            pairs.insert(rng.randint(0, len(pairs)), unknown_attr(rng, pairs, client_prefix_ok=not any(k in ("START-DATE", "END-ON-NEXT", "PLANNED-DURATION", "CLASS", "ID") for k, _ in pairs)))
         if self.shuffle_attrs:
             rng.shuffle(pairs)
         out = []
@@ -429,3 +532,10 @@ ALPHABET = ["#EXTM3U", "#EXT", "#EXTINF:", "#EXT-X-", "KEY:", "MAP:", "BYTERANGE
 def random_text(rng, n=None):
     n = n or rng.randint(0, 40)
     return "".join(rng.choice(ALPHABET) for _ in range(n))
+
+
+if __name__ == "__main__":
+    import json, os
+    from . import common as C
+    json.dump(source_literals(), open(os.path.join(C.VERIF, "source_literals.json"), "w"), indent=0, ensure_ascii=False)
+    print("written", len(source_literals()), "literals")
